@@ -34,9 +34,13 @@ class SArr(_np.ndarray):
 
     # numpy's default any/all on object arrays use python truthiness of each cell pairwise
     def any(self, *a, **k):
+        if self.dtype != object:
+            return _np.ndarray.any(self.view(_np.ndarray), *a, **k)
         return any_(self)
 
     def all(self, *a, **k):
+        if self.dtype != object:
+            return _np.ndarray.all(self.view(_np.ndarray), *a, **k)
         return all_(self)
 
     def dot(self, other):
